@@ -25,6 +25,7 @@ func rulesC04(c *Ctx, r *Report) {
 	r.floor("G5-lines", rulesLineChain(c, r, "formats/bed"), 1, "ReadString line reader of bed")
 	rulesPassAllFor(c, r, "formats/bed", 2)
 	rulesNoBufferedPkg(c, r, "formats/bed")
+	rulesNumWidth(c, r, "formats/bed")
 }
 
 var bedFields = []string{"N", "Chrom", "ChromStart", "ChromEnd", "Name", "Score", "Strand", "ThickStart", "ThickEnd", "ItemRGB", "BlockCount", "BlockSizes", "BlockStarts"}
@@ -478,7 +479,8 @@ func rulesNoCsv(c *Ctx, r *Report, rel string, entries []string, writer string) 
 }
 
 // rulesWholeLines (LINE-WHOLE): no ReadLine whose isPrefix result is discarded.
-func rulesWholeLines(c *Ctx, r *Report, rel string) {
+func rulesWholeLines(c *Ctx, r *Report, rel string, opts ...string) {
+	tokenizer := len(opts) > 0 && opts[0] == "tokenizer" // a byte-level tokenizer may Peek/Discard; a line reader may not
 	n := 0
 	for _, f := range formatFuncs(c) {
 		if funcPkgPath(f) != modPath+"/"+rel {
@@ -505,7 +507,7 @@ func rulesWholeLines(c *Ctx, r *Report, rel string) {
 	// no input bytes are thrown away outside the line parser
 	nd := 0
 	for _, f := range formatFuncs(c) {
-		if funcPkgPath(f) != modPath+"/"+rel {
+		if funcPkgPath(f) != modPath+"/"+rel || tokenizer {
 			continue
 		}
 		instrs(f, func(in ssa.Instruction) {
@@ -515,7 +517,31 @@ func rulesWholeLines(c *Ctx, r *Report, rel string) {
 			}
 		})
 	}
-	if nd == 0 {
+	if nd == 0 && !tokenizer {
 		r.holds("LINE-WHOLE", rel, "no Discard", "", "no input bytes are discarded outside the line parser")
+	}
+	// ReadSlice fails with ErrBufferFull once a token outgrows the buffer
+	ns := 0
+	for _, f := range formatFuncs(c) {
+		if funcPkgPath(f) != modPath+"/"+rel {
+			continue
+		}
+		handlesFull := false
+		instrs(f, func(in ssa.Instruction) {
+			if u, ok := in.(*ssa.UnOp); ok {
+				if g, ok := u.X.(*ssa.Global); ok && g.Pkg != nil && g.Pkg.Pkg.Path() == "bufio" && g.Name() == "ErrBufferFull" {
+					handlesFull = true
+				}
+			}
+		})
+		instrs(f, func(in ssa.Instruction) {
+			if ci, ok := in.(ssa.CallInstruction); ok && methIs(ci.Common().StaticCallee(), "bufio", "Reader", "ReadSlice") && !handlesFull {
+				ns++
+				r.violated("LINE-WHOLE", fname(f), "ReadSlice", c.pos(in.Pos()), "ReadSlice is used without handling bufio.ErrBufferFull: a token longer than the buffer (4096 bytes) is an error instead of being read whole")
+			}
+		})
+	}
+	if ns == 0 {
+		r.holds("LINE-WHOLE", rel, "no bounded ReadSlice", "", "no token is read with a buffer-bounded ReadSlice: tokens of any length are read whole")
 	}
 }
